@@ -61,7 +61,80 @@ var (
 	budgetFire  func(calls int64)
 )
 
+// Deadlock monitor. Every simulated tick passes the hook sites (4 per processor), so "a simulation is
+// in flight and no hook site has been passed" means that no goroutine of it can make progress: the
+// tick loop and the workers wait for one another. The monitor samples the hook-call counter; six
+// consecutive samples (30 s) without a single call while a simulation is in flight is that state —
+// decided on the absence of events, with the goroutine dump as the witness — not a slow run.
+var (
+	hookCalls atomic.Int64
+	inFlight  atomic.Int64
+	flightMu  sync.Mutex
+	flightTxt = map[int64]string{}
+	flightSeq atomic.Int64
+)
+
+func countCB(site string, procID int) { hookCalls.Add(1) }
+
+func enter(text string) int64 {
+	id := flightSeq.Add(1)
+	flightMu.Lock()
+	flightTxt[id] = text
+	flightMu.Unlock()
+	inFlight.Add(1)
+	return id
+}
+
+func leave(id int64) {
+	inFlight.Add(-1)
+	flightMu.Lock()
+	delete(flightTxt, id)
+	flightMu.Unlock()
+}
+
+func deadlockMonitor(run *evid.Run) {
+	last, idle := hookCalls.Load(), 0
+	for {
+		time.Sleep(5 * time.Second)
+		now := hookCalls.Load()
+		if inFlight.Load() > 0 && now == last {
+			idle++
+		} else {
+			idle = 0
+		}
+		last = now
+		if idle < 6 {
+			continue
+		}
+		buf := make([]byte, 1<<20)
+		buf = buf[:runtime.Stack(buf, true)]
+		var keep []string
+		for _, blk := range strings.Split(string(buf), "\n\n") {
+			if strings.Contains(blk, "pkg/bondmachine.(*VM)") {
+				if len(blk) > 700 {
+					blk = blk[:700]
+				}
+				keep = append(keep, blk)
+			}
+			if len(keep) >= 12 {
+				break
+			}
+		}
+		flightMu.Lock()
+		var sims []string
+		for _, t := range flightTxt {
+			sims = append(sims, t)
+		}
+		flightMu.Unlock()
+		sort.Strings(sims)
+		run.Violation("tick-never-completes", map[string]any{"simulations_in_flight": sims, "hook_calls_so_far": now,
+			"what": "a simulation was in flight and no worker/tick hand-over point was passed for 30 s: VM.Step and the per-processor workers wait for one another", "goroutines": keep})
+		os.Exit(run.Finish())
+	}
+}
+
 func yieldCB(site string, procID int) {
+	hookCalls.Add(1)
 	if budgetOn.Load() {
 		if c := budgetCalls.Add(1); c > budgetMax.Load() {
 			budgetOnce.Do(func() { budgetFire(c) })
@@ -111,6 +184,7 @@ type trace struct {
 }
 
 func runCase(bm *bondmachine.Bondmachine, c caseT) trace {
+	defer leave(enter(c.Net.String()))
 	var t trace
 	r, err := simdrv.Start(bm, c.Env)
 	if err != nil {
@@ -248,7 +322,7 @@ func workload(run *evid.Run, tier string, race bool) {
 	if race {
 		nRandom, nSched, ticks = nRandom/3+1, nSched/3+1, ticks/2
 	}
-	bondmachine.SetVerifYield(nil)
+	bondmachine.SetVerifYield(countCB) // counts only (the deadlock monitor needs the events), never yields
 	nets := machines(run.Seed, nRandom)
 	type built struct {
 		c   caseT
@@ -423,6 +497,7 @@ func workload(run *evid.Run, tier string, race bool) {
 				os.Exit(run.Finish())
 			}
 			budgetOn.Store(true)
+			spsID := enter("SinglePipelineSimulate x" + strconv.Itoa(callers) + " " + dt + " on " + n.String())
 			res := make([][]string, callers)
 			errs := make([]error, callers)
 			var wg sync.WaitGroup
@@ -439,6 +514,7 @@ func workload(run *evid.Run, tier string, race bool) {
 				}(c)
 			}
 			wg.Wait()
+			leave(spsID)
 			budgetOn.Store(false)
 			want, err := bm.SinglePipelineSimulate(dt, []string{"7"}, nil)
 			if err != nil {
@@ -516,6 +592,7 @@ func main() {
 	run.Floor = 20
 	scratch, clean := hx.Scratch("c09")
 	defer clean()
+	go deadlockMonitor(run)
 	// the linear quantizer opcodes need a registered data range (index 1)
 	if err := gen.EnableLinearQuantizer(scratch); err != nil {
 		fmt.Fprintln(os.Stderr, "lq ranges:", err)
